@@ -43,4 +43,4 @@ package barriers
 //@ method (*barrierErr).SafeDetails
 //@   props C03 C12 C07
 //@   ensures[C03] safeSeq(result)
-//@   loop 1: invariant safeSeq(details)
+//@   loop 1: invariant[C03] safeSeq(details)
